@@ -71,7 +71,7 @@ def view(ap, eff, sc):
 def run(ctx):
     nob, ndis, failing, files = common.obligations(ctx, PROPS)
     base = []
-    for fam, nq, nt in (("core", 40, 400), ("subslot", 30, 300), ("limits", 30, 300), ("coredeps", 30, 300), ("scentrees", 40, 300), ("grouphours", 30, 200)):
+    for fam, nq, nt in (("core", 40, 400), ("subslot", 30, 300), ("limits", 30, 300), ("coredeps", 30, 300), ("scentrees", 40, 300), ("grouphours", 30, 200), ("taskalap", 40, 300)):
         base += gens.family(ctx, fam, ctx.n(nq, nt))
     multi, metas, singles = [], [], []
     for ap in base:
